@@ -601,7 +601,10 @@ class World(object):
     def make_leaf(self, tc, lf, made):
         op = lf[0]
         if op == "c":
-            if len(lf) > 3:
+            if len(lf) > 3 and lf[3] == "cu":
+                # the same child, called with an extra argument whose repr() raises (diagnostics must cope)
+                t = hunrepr.asynq(lf[2], _UNREPR)
+            elif len(lf) > 3:
                 # the same child, reached through async_call on a make_async_decorator-wrapped function
                 t = async_call.asynq(hwrapped, lf[2])
             else:
@@ -1344,6 +1347,28 @@ class DDHost(object):
 
 @_asynq_deco()
 def htask(tc):
+    w = _cur.w
+    w.step_begin(tc, None, None, None)
+    rec, made = [], []
+    try:
+        yield from _block(w, tc, tc.stmts, rec, made)
+    finally:
+        w.body_exit(tc)
+    return ("t", tc.tid, tuple(rec))
+
+
+class _Unreprable(object):
+    """stands for a handle whose repr() fails once it is closed"""
+
+    def __repr__(self):
+        raise RuntimeError("repr() of a closed handle")
+
+
+_UNREPR = _Unreprable()
+
+
+@_asynq_deco()
+def hunrepr(tc, handle):
     w = _cur.w
     w.step_begin(tc, None, None, None)
     rec, made = [], []
